@@ -628,6 +628,22 @@ ESCAPE_PROBES = [
 ]
 
 
+# forward declarations that share a name (overloads): each implementation fulfils the declaration with *its* signature
+_OVF = "forward fn pick(x: int)->int;\nforward fn pick(x: str)->int;\nfn use_int()->int{ pick(1) }\nfn use_str()->int{ pick('x') }\n"
+FULL_PROBES = [
+    (_OVF + "fn pick(x: str)->int{ 200 }\nfn pick(x: int)->int{ 100 }\nlet r = use_int() * 1000 + use_str();\nlet q = pick(1) * 1000 + pick('x');", {"r": 100200, "q": 100200}),
+    (_OVF + "fn pick(x: int)->int{ 100 }\nfn pick(x: str)->int{ 200 }\nlet r = use_int() * 1000 + use_str();\nlet q = pick(1) * 1000 + pick('x');", {"r": 100200, "q": 100200}),
+    (_OVF + "fn pick(x: str)->int{ 200 }\nlet r = use_int();\nfn pick(x: int)->int{ 100 }", "reject"),
+    (_OVF + "fn pick(x: str)->int{ 200 }\nlet r = use_str();\nfn pick(x: int)->int{ 100 }", {"r": 200}),
+    (_OVF + "fn pick(x: int)->int{ 100 }\nlet r = use_str();\nfn pick(x: str)->int{ 200 }", "reject"),
+    (_OVF + "fn pick(x: int)->int{ 100 }\nlet r = pick('x');\nfn pick(x: str)->int{ 200 }", "reject"),
+    ("fn host()->int{ " + _OVF.replace("\n", " ") + " fn pick(x: str)->int{ 200 } fn pick(x: int)->int{ 100 } use_int() * 1000 + use_str() }\nlet r = host();", {"r": 100200}),
+    ("forward fn a(i: int)->int;\nforward fn b(i: int)->int;\nfn a(i: int)->int{ b(i) }\nlet r = a(1);\nfn b(i: int)->int{ i }", "reject"),
+    ("forward fn a(i: int)->int;\nforward fn b(i: int)->int;\nfn c(i: int)->int{ a(i) + 1 }\nfn a(i: int)->int{ b(i) }\nlet r = c(1);\nfn b(i: int)->int{ i }", "reject"),
+    ("forward fn a(i: int)->int;\nforward fn b(i: int)->int;\nfn c(i: int)->int{ a(i) + 1 }\nfn a(i: int)->int{ b(i) }\nfn b(i: int)->int{ i }\nlet r = c(1);", {"r": 2}),
+]
+
+
 def reserved_names(ctx):
     overloads, dynamic, types, _ = surface.load(ctx)
     sig = core.run_cases(ctx.binary, [{"id": "sig", "mode": "signatures"}], "C03_sig", confirm=False)[0]["signatures"]
@@ -672,6 +688,8 @@ def make_cases(ctx):
     for k, (tail, val) in enumerate(FWD_AFTER):
         cases.append({"id": f"C03-fwda{k}", "source": FWD_HEAD + "fn g(x: int)->int{ x * 2 }\n" + tail + "\n", "dump": {"per": 16, "nodes": 200},
                       "meta": {"kind": "fwd_after", "mid": tail}, "_expect": {"r": val}, "_out": None})
+    for k, (src, exp) in enumerate(FULL_PROBES):
+        cases.append({"id": f"C03-full{k}", "source": src, "dump": {"per": 16, "nodes": 200}, "meta": {"kind": "fwd_probe", "mid": src.replace("\n", " ")[-70:]}, "_expect": exp, "_out": None})
     for k, (src, val, fam) in enumerate(ESCAPE_PROBES):
         cases.append({"id": f"C03-esc{k}", "source": src, "dump": {"per": 16, "nodes": 200}, "meta": {"kind": fam, "mid": src}, "_expect": {"r": val}, "_out": None})
     return cases
@@ -767,7 +785,7 @@ def run(ctx):
            "samples": samples, "agreeing": ok, "decided": decided, "bindings_compared": bindings, "output_lines_compared": lines,
            "distinct_nesting_shapes": len(shapes), "max_nesting_level_histogram": {str(k): v for k, v in sorted(levels.items())},
            "capture_distance_histogram": {str(k): v for k, v in sorted(dist.items())}, "shadowing_declarations": shadow, "same_scope_redefinitions": redef,
-           "defaults_with_display": dd, "forward_blocks_generated": fwd, "forward_gating_probes": len(FWD_PROBES) + len(FWD_AFTER) + len(ESCAPE_PROBES),
+           "defaults_with_display": dd, "forward_blocks_generated": fwd, "forward_gating_probes": len(FWD_PROBES) + len(FWD_AFTER) + len(ESCAPE_PROBES) + len(FULL_PROBES),
            "identifier_spellings_used": len(spellings), "closure_transport_forms": hof}
     return {"coverage": cov, "broken": None if ok > 200 else "too few programs agreed",
             "assumptions": ["a function name may not be re-used for another function visible at the same point (that is overloading: C05)",
